@@ -1087,17 +1087,541 @@ def r10(cx):
     cx.site('kill::syntax::parse_signal: str::parse x%d' % len(parses))
     if not parses:
         return                                   # a hand-written digit scanner accepts no sign
-    DIGIT = re.compile(r'(is_ascii_digit|starts_with|strip_prefix|bytes|chars|all)(::<.*>)?$')
+    memo = {}
     for blk, t in parses:
-        ok = False
-        for org, lab, e in Q.implied_conditions(F, body, du, blk):
-            if org['k'] == 'call' and DIGIT.search(pp.callee(org['t'])):
-                ok = True
-        cx.site('parse_signal: str::parse at %s behind a first-character / all-digits test: %s' % (body.loc(t), ok))
+        # decided by the classifier of the family rule C20.R11 (digit test before - also in a helper -, or sign rejected afterwards)
+        why = _classify_parse(F, body, blk, t, True, memo)
+        ok = why is not None
+        cx.site('parse_signal: str::parse at %s behind a first-character / all-digits test: %s' % (body.loc(t), why or False))
         if not ok:
             cx.violation(KILL_PARSE_SIGNAL, 'signed-signal-number', 'the signal specification is handed to str::parse::<i32> without a test that '
                          'it is made of digits: `kill -s +9 pid`, `kill -n+9 pid` and even `kill -+9 pid` send signal 9, and `kill -s -9` '
                          'passes a negative signal number on - none of them is a documented spelling of `-9` / `-s 9` / `-n 9`', loc=body.loc(t))
+
+
+# ---------------------------------------------------------------------------------------
+# added after fix 8980b3b (`trap '' +2`, `trap cmd +0`, `kill -l +2`): the third instance of one defect (C12.R6 `%+1`, C20.R10
+# `kill -s +9`) - an inventory of the whole family instead of one more rule per function
+import pp
+
+INT_TY = re.compile(r'^(?:core::num::nonzero::NonZero<)?([iu])(?:8|16|32|64|128|size)>?$')
+NUM_SCOPE = re.compile(r'^<?(?:yash_builtin::|yash_env::(?:job::id|signal|system::signal|option|trap)(?:::|\b)|yash_cli::startup(?:::|\b))')
+DIGIT_PRED = re.compile(r'::(?:is_ascii_digit|is_digit|to_digit|is_ascii_octdigit|is_ascii_hexdigit)$')
+# calls that hand the text (or a view of it) on: the variable a test is about is found behind them
+TEXT_VIEW = re.compile(r'::(?:deref|as_str|as_ref|borrow|chars|bytes|as_bytes|char_indices|iter|next|first|peekable|trim|trim_start|'
+                       r'to_string|to_owned|clone|as_deref|unwrap_or|unwrap_or_default|get)$')
+
+# Reviewed sites where the text handed to the integer parser may carry a sign: (root function, parsed type) -> (number of such
+# calls, why a sign is acceptable there).  Every other site in scope must sit behind a digit test (or reject the sign afterwards).
+# The line drawn: where the operand is purely numeric (no other reading of the text exists) `+1` is the integer 1 and harmless;
+# where the text could also be a NAME (signal, condition, job) a sign must not make it a number - those sites are not listed.
+SIGN_REVIEWED = {
+    ('yash_builtin::exit::main', 'i32'):
+        (1, 'exit [n]: the manual asks for a non-negative decimal integer; a negative value is diagnosed by name ("negative exit '
+            'status"), so signed text is anticipated input; `+1` is the integer 1; purely numeric operand'),
+    ('yash_builtin::r#return::main', 'i32'):
+        (1, 'return [n]: as exit - negative diagnosed by name, `+1` is 1, purely numeric operand'),
+    ('yash_builtin::r#break::syntax::parse', 'core::num::nonzero::NonZero<usize>'):
+        (1, 'break/continue [n]: "a positive decimal integer"; the unsigned type rejects `-`, `+2` is 2, purely numeric operand'),
+    ('yash_builtin::shift::main', 'usize'):
+        (1, 'shift [n]: "a non-negative decimal integer"; the unsigned type rejects `-`, `+1` is 1, purely numeric operand'),
+    ('yash_builtin::wait::syntax::<impl core::convert::TryFrom<yash_env::semantics::Field> for yash_builtin::wait::JobSpec>::try_from', 'i32'):
+        (1, 'wait pid: job IDs are taken off by their `%` before; a negative number is diagnosed by name (NonPositive), `+12` is '
+            'process 12; the operand has no third reading'),
+    ('yash_builtin::kill::send::resolve_target', 'i32'):
+        (1, 'kill target: the sign is part of the documented grammar (a negative integer is a negated process group ID); job IDs are '
+            'taken off by their `%` before'),
+    ('yash_builtin::kill::syntax::is_signal_name', 'i32'):
+        (1, 'only asks "is this text NOT a number" before parse_signal (digit-guarded, C20.R10) is asked for a name: a signed text is '
+            'neither, whichever way this parse answers'),
+    ('yash_builtin::kill::syntax::non_portable_signal_number', 'i32'):
+        (1, 'portable mode only: chooses between two rejections (non-portable number / invalid signal) of the -s/-n argument; whether '
+            'the text is accepted is decided by parse_signal (digit-guarded) alone'),
+    ('yash_builtin::ulimit::syntax::<impl core::str::traits::FromStr for yash_builtin::ulimit::SetLimitValue>::from_str', 'u64'):
+        (1, 'ulimit limit: "a non-negative integer"; the keywords unlimited/hard/soft are matched before, the unsigned type rejects '
+            '`-`, `+5` is 5'),
+    ('yash_builtin::getopts::indexes_from_optind', 'core::num::nonzero::NonZero<usize>'):
+        (2, 'not an operand: the two halves of $OPTIND, a value the built-in writes itself; anything unparsable falls back to 1'),
+    ('<yash_env::signal::Name as core::str::traits::FromStr>::from_str', 'i32'):
+        (2, 'RTMIN+n / RTMAX-n: the parsed tail is REQUIRED to start with the sign (starts_with([+, -])): the sign is the grammar'),
+    ('yash_env::system::signal::Signals::str2sig', 'i32'):
+        (1, 'RTMIN+n / RTMAX-n: the suffix is empty or required to start with `+`/`-` before it is parsed'),
+}
+SIGN_EXAMPLES = {
+    'yash_builtin::trap::syntax::parse_condition': "`trap '' +2` ignores SIGINT and `trap cmd +0` sets the EXIT trap",
+    'yash_builtin::kill::print::to_name_and_number': '`kill -l +2` prints INT',
+    'yash_builtin::kill::syntax::parse_signal': '`kill -s +9 pid` / `kill -+9 pid` send signal 9',
+    'yash_builtin::umask::syntax::parse': '`umask +22` sets the mask 022 instead of being rejected as a symbolic mode',
+    'yash_env::job::id::parse_tail': '`fg %+1` resumes job 1 (the documented forms are %n, %+ alone and %name)',
+}
+
+
+def _norm_name(n):
+    if not n or n.startswith('const') or re.fullmatch(r'_\d+(\..*)?', n):
+        return None
+    return n.replace('__', '.')
+
+
+def _text_root(body, du, o, depth=12):
+    """Name of the user variable (parameter, captured variable, or failing that the last named local) whose text an operand is a
+    view of, following copies, borrows, payload projections and deref / chars / bytes / next / ... calls."""
+    last = None
+    for _ in range(depth):
+        if 'cp' not in o and 'mv' not in o:
+            return last
+        last = _norm_name(Q.operand_name(body, du, o)) or last
+        pl = du.deref_origin(Q.operand_place(o))
+        if 1 <= pl['l'] <= body.argc:
+            return last
+        d = du.single_def(pl['l'])
+        if d is None:
+            return last
+        if d[1] == 't':
+            if d[2]['a'] and TEXT_VIEW.search(pp.callee(d[2]).split(' [')[0]):
+                o = d[2]['a'][0]
+                continue
+            return last
+        rv = d[2].get('rv') or {}
+        if rv.get('k') == 'use' and ('cp' in rv['o'] or 'mv' in rv['o']):
+            o = rv['o']
+        elif rv.get('k') == 'ref':
+            o = {'cp': rv['pl']}
+        else:
+            return last
+    return last
+
+
+def _same_text(a, b):
+    """Unknown names do not contradict; known names must denote the same variable (or a field of it)."""
+    if not a or not b:
+        return True
+    return a == b or a.startswith(b + '.') or b.startswith(a + '.')
+
+
+def _fn_tests_digits(F, name, helper_ok, memo):
+    """`name` is a digit predicate of core, or a closure / small bool helper of the workspace whose own code applies one."""
+    name = name.split(' [')[0]
+    if DIGIT_PRED.search(name):
+        return True
+    key = (name, helper_ok)
+    if key in memo:
+        return memo[key]
+    memo[key] = False
+    if name not in F.bodies:
+        return False
+    if '{closure#' not in name.rsplit('::', 1)[-1]:
+        sig = F.fns.get(name) or {}
+        if not helper_ok or sig.get('output') != 'bool' or len(F.bodies[name].blocks) > 60:
+            return False
+    out = False
+    for k, b in F.bodies.items():
+        if k != name and not k.startswith(name + '::{closure#'):
+            continue
+        du = Q.DefUse(b)
+        for blk, t in b.calls():
+            if _call_tests_digits(F, b, du, t, False, memo):
+                out = True
+    memo[key] = out
+    return out
+
+
+def _call_tests_digits(F, body, du, t, helper_ok, memo):
+    """The call applies a digit predicate to characters of its receiver / argument: the predicate itself, a combinator
+    (starts_with, all, is_some_and, ...) given a closure or fn item that does, or a bool helper of the workspace that does."""
+    if _fn_tests_digits(F, pp.callee(t), helper_ok, memo):
+        return True
+    for a in t['a']:
+        if a.get('fn') and _fn_tests_digits(F, a['fn'], False, memo):
+            return True
+        if 'cp' in a or 'mv' in a:
+            org = du.origin(a)
+            if org['k'] == 'agg' and org['rv'].get('ak') == 'closure' and org['rv'].get('def') and \
+                    _fn_tests_digits(F, org['rv']['def'], False, memo):
+                return True
+    return False
+
+
+def _sign_chars(body, du, o, depth=4):
+    """Sign characters of a pattern operand: '+' -> {'+'}, ['+', '-'] -> {'+', '-'}."""
+    if depth == 0:
+        return set()
+    if 'c' in o:
+        return set(re.findall(r"^'([+-])'$", str(o['c']).strip())) | set(re.findall(r"'([+-])'", str(o['c']))) \
+            if "'" in str(o['c']) else set(re.findall(r'^"([+-])"$', str(o['c']).strip()))
+    org = du.origin(o)
+    out = set()
+    if org['k'] == 'agg':
+        for x in org['rv'].get('ops') or []:
+            out |= _sign_chars(body, du, x, depth - 1)
+    elif org['k'] == 'ref' and not org['pl'].get('p'):
+        out |= _sign_chars(body, du, {'cp': org['pl']}, depth - 1)
+    elif org['k'] == 'const' and 'c' in org['o']:
+        out |= _sign_chars(body, du, org['o'], depth - 1)
+    return out
+
+
+STARTS_WITH = [re.compile(r'^core::str::<impl str>::starts_with(::<.*>)?$')]
+
+
+def _true_implies(F, body, du, o, depth=3):
+    """Conditions that hold whenever the bool operand `o` is true: its origin, and - for a materialised `a && b` (a bool local
+    assigned `false` on one edge and a value on the other) - what dominates the one definition that can make it true."""
+    if 'cp' not in o and 'mv' not in o:
+        return []
+    org = du.origin(o)
+    out = [(org, ('bool', True), None)]
+    if depth == 0 or org['k'] != 'place' or org['pl'].get('p') or body.locals[org['pl']['l']]['ty'] != 'bool':
+        return out
+    l = org['pl']['l']
+    defs = [(b, st) for b, j, st in body.stmts() if st['k'] == 'assign' and st['lhs']['l'] == l and not st['lhs'].get('p')]
+    cdefs = [(b, t) for b, t in body.calls() if t['dest']['l'] == l and not t['dest'].get('p')]
+    keep = [(b, st) for b, st in defs
+            if not (st['rv']['k'] == 'use' and 'c' in st['rv']['o'] and str(st['rv']['o']['c']) == 'false')]
+    if len(keep) + len(cdefs) != 1:
+        return out
+    if cdefs:
+        b, t = cdefs[0]
+        return out + list(Q.implied_conditions(F, body, du, b)) + [({'k': 'call', 't': t, 'b': b}, ('bool', True), None)]
+    b, st = keep[0]
+    out += list(Q.implied_conditions(F, body, du, b))
+    if st['rv']['k'] == 'use':
+        out += _true_implies(F, body, du, st['rv']['o'], depth - 1)
+    elif st['rv']['k'] == 'unop' and st['rv'].get('op') == 'Not':
+        out.append((du.origin(st['rv']['o']), ('bool', False), None))
+    return out
+
+
+def _guard_among(F, body, du, conds, text, signed, memo):
+    """One of the conditions establishes that `text` starts with a digit / is all digits, or that it does not start with a sign
+    -> description, or None."""
+    for org, lab, e in conds:
+        org, lab = Q.peel_not(du, org, lab)
+        if org['k'] != 'call':
+            continue
+        t = org['t']
+        about = _text_root(body, du, t['a'][0]) if t['a'] else None
+        if not _same_text(about, text):
+            continue
+        if lab == ('bool', True) and _call_tests_digits(F, body, du, t, True, memo):
+            return 'behind the digit test %s(%s)' % (pp.callee(t).split('::')[-1], about or '..')
+        if lab == ('bool', False) and Q.callee_is(t, STARTS_WITH) and len(t['a']) > 1:
+            signs = _sign_chars(body, du, t['a'][1])
+            if signs >= ({'+', '-'} if signed else {'+'}):
+                return 'behind !%s.starts_with(%s)' % (about or '..', '/'.join(sorted(signs)))
+    return None
+
+
+def _digit_guard(F, body, du, blk, text, signed, memo):
+    """A test that dominates block `blk` establishes it."""
+    return _guard_among(F, body, du, Q.implied_conditions(F, body, du, blk), text, signed, memo)
+
+
+def _value_uses(body, result_local):
+    """Blocks where the payload of the Result in `result_local` is consumed (plain copies into other locals are followed; looking at
+    the discriminant or borrowing the Result for a match guard is no use).  None when the Result as a whole goes on (`?`, .ok(), ...)."""
+    uses = set()
+    work = [(result_local, True)]
+    seen = set()
+    while work:
+        l, is_result = work.pop()
+        if l in seen:
+            continue
+        seen.add(l)
+        for b_, j_, st in body.stmts():
+            if st['k'] != 'assign':
+                continue
+            for p_ in Q.rvalue_places(st['rv']):
+                if p_['l'] != l:
+                    continue
+                k = st['rv']['k']
+                if is_result and k in ('ref', 'discr'):
+                    continue
+                if is_result and not p_.get('p'):
+                    return None
+                if k == 'use' and not st['lhs'].get('p') and st['lhs']['l'] != 0:
+                    work.append((st['lhs']['l'], False))
+                else:
+                    uses.add(b_)
+        for b_ in range(len(body.blocks)):
+            t_ = body.term(b_)
+            if t_['k'] == 'call' and any(Q.operand_local(a) == l for a in t_['a']):
+                if is_result:
+                    return None
+                uses.add(b_)
+            elif t_['k'] == 'switch' and Q.operand_local(t_['d']) == l and not is_result:
+                uses.add(b_)
+    return uses
+
+
+def _classify_parse(F, body, blk, t, signed, memo):
+    """Why a sign cannot reach this integer parse (description), or None."""
+    du0 = Q.DefUse(body)
+    text = _text_root(body, du0, t['a'][0]) if t['a'] else None
+    # (a) a digit test dominates the call
+    g = _digit_guard(F, body, du0, blk, text, signed, memo)
+    if g:
+        return g
+    # ... also when the test was moved into a private helper of the module (inlined view, jump threading)
+    ib = F.inlined(body)
+    if ib is not body:
+        du = Q.DefUse(ib)
+        same = [(b_, t_) for b_, t_ in ib.calls() if pp.callee(t_) == pp.callee(t) and t_.get('line') == t.get('line')
+                and not t_.get('file')]
+        gs = [_digit_guard(F, ib, du, b_, text, signed, memo) for b_, t_ in same]
+        if gs and all(gs):
+            return gs[0] + ' (helper inlined)'
+    # (b) the sign is rejected after the parse: every use of the parsed value (followed through plain copies) sits behind the test
+    dest = t['dest']
+    if not dest.get('p'):
+        uses = _value_uses(body, dest['l'])
+        if uses:
+            gs = [_digit_guard(F, body, du0, b_, text, signed, memo) for b_ in sorted(uses)]
+            if all(gs):
+                return 'parsed value used only ' + gs[0]
+    # (c) the parse sits in a closure that runs only behind the test: `test(s).then(|| s.parse())`, or a closure made in a guarded block
+    parent = body.fn.rsplit('::', 1)[0]
+    pb = F.bodies.get(parent)
+    if pb is not None and '{closure#' in body.fn.rsplit('::', 1)[-1]:
+        pdu = Q.DefUse(pb)
+        ptext = text
+        for uv in body.d.get('upvars') or []:
+            ptext = ptext or _norm_name(uv.get('name'))
+        for b_, j_, st in pb.stmts():
+            if not (st['k'] == 'assign' and st['rv']['k'] == 'agg' and st['rv'].get('ak') == 'closure' and st['rv'].get('def') == body.fn):
+                continue
+            g = _digit_guard(F, pb, pdu, b_, ptext, signed, memo)
+            if g:
+                return 'closure made ' + g
+            cl = st['lhs']['l']
+            users = [(ub, ut) for ub, ut in pb.calls() if any(Q.operand_local(a) == cl for a in ut['a'])]
+            descs = []
+            for ub, ut in users:
+                d = None
+                if Q.callee_is(ut, ['core::bool::<impl bool>::then']):
+                    d = _guard_among(F, pb, pdu, _true_implies(F, pb, pdu, ut['a'][0]), ptext, signed, memo)
+                    d = d and 'closure run by bool::then ' + d
+                d = d or _digit_guard(F, pb, pdu, ub, ptext, signed, memo)
+                descs.append(d)
+            if descs and all(descs):
+                return descs[0]
+    # (d) the parse was moved into a private helper: every caller makes the test before calling it
+    if '{closure#' not in body.fn and (F.fns.get(body.fn) or {}).get('vis') not in (None, 'pub'):
+        callers = [(cb_, b_, t_) for cb_, b_, t_ in F.callers_of(lambda names, t_: body.fn in names) if not is_test(cb_.fn)]
+        gs = [_digit_guard(F, cb_, Q.DefUse(cb_), b_, None, signed, memo) for cb_, b_, t_ in callers]
+        if gs and all(gs):
+            return 'every caller calls it ' + gs[0]
+    return None
+
+
+def _int_parse_sites(F):
+    for fn in sorted(F.bodies):
+        if is_test(fn) or not NUM_SCOPE.search(fn):
+            continue
+        b = F.bodies[fn]
+        for blk, t in b.calls():
+            nm = pp.callee(t).split(' [')[0]
+            ty = None
+            if nm == 'core::str::<impl str>::parse':
+                ty = str(t['f'].get('ga') or t['f'].get('rga') or '?')
+            else:
+                m = re.match(r'core::num::(?:nonzero::)?<impl (.+)>::from_str_radix$', nm) or \
+                    re.match(r'<(.+) as core::str::traits::FromStr>::from_str$', nm) or \
+                    re.match(r'core::num::nonzero::NonZero::<(.+)>::from_str_radix$', nm)
+                if m:
+                    ty = m.group(1)
+            if ty is None:
+                continue
+            m = INT_TY.match(ty)
+            generic = bool(re.fullmatch(r'[A-Z]\w*|\?', ty))      # parse::<T>: the type is decided by the caller - counts as a site
+            if not m and not generic:
+                continue
+            yield b, blk, t, ty, (m.group(1) == 'i') if m else True
+
+
+@RS.rule('C20.R11', 'K-GUARD', 'a number operand is an unsigned decimal wherever the text could also be a name: every str::parse::<integer> / '
+         'from_str_radix in the built-ins, job IDs, signal names, traps and option parsing (both accept a leading `+`, the signed types '
+         'also `-`) sits behind a test that the text starts with a digit / is all digits, or rejects the sign afterwards, or is a '
+         'reviewed site where a sign is acceptable (`trap \'\' +2`, `trap cmd +0`, `kill -l +2`, `kill -s +9`, `%+1` are not numbers)')
+def r11(cx):
+    F = cx.F
+    memo = {}
+    per = {}
+    for b, blk, t, ty, signed in _int_parse_sites(F):
+        cx.fn(b.fn)
+        per.setdefault((b.root, ty), []).append((b, t, _classify_parse(F, b, blk, t, signed, memo)))
+    n = 0
+    for (root, ty), lst in sorted(per.items()):
+        unguarded = [(b, t) for b, t, v in lst if v is None]
+        rev = SIGN_REVIEWED.get((root, ty))
+        for b, t, v in lst:
+            n += 1
+            cx.cellcount(1)
+            cx.site('%s: %s::<%s> at %s: %s' % (b.fn, pp.callee(t).split('::')[-1], ty, b.loc(t),
+                                               v or ('reviewed: ' + rev[1] if rev else 'NEITHER GUARDED NOR REVIEWED')))
+        if not unguarded or (rev and len(unguarded) <= rev[0]):
+            continue
+        b, t = unguarded[-1]
+        what = '%s::from_str_radix' % ty if 'from_str_radix' in pp.callee(t) else 'str::parse::<%s>' % ty
+        if rev:
+            cx.violation(root, 'more-signed-parses-than-reviewed:%s' % ty, '%d calls of %s take text without a digit test, %d were '
+                         'reviewed (%s): review the new one or put it behind a test that the text starts with a digit'
+                         % (len(unguarded), what, rev[0], rev[1]), loc=b.loc(t))
+        else:
+            eg = SIGN_EXAMPLES.get(root)
+            cx.violation(root, 'signed-number:%s' % ty, 'operand text is handed to %s, which accepts a leading `+`%s, without a test that '
+                         'it starts with a digit (or is all digits) and without rejecting the sign afterwards, and the site is not in '
+                         'the reviewed table of sign-tolerant operands: a signed text is read as a number where the manual knows only '
+                         'unsigned numbers and names%s' % (what, ' and `-`' if not ty.startswith(('u', 'core::num::nonzero::NonZero<u')) else '',
+                                                          ' - ' + eg if eg else ''), loc=b.loc(t))
+    cx.floor(n, 19, 'integer parses of operand text in the built-in / job ID / signal / option code')
+    for (root, ty), (cnt, why) in sorted(SIGN_REVIEWED.items()):
+        if (root, ty) not in per:
+            cx.site('reviewed entry without a site today (harmless): %s %s' % (root, ty))
+
+
+# ---------------------------------------------------------------------------------------
+# added after fix f82b90d (a login shell invoked as `-sh` did not enter the POSIXly-correct mode)
+SHOPT = 'yash_env::option::Option'
+STR_EQ = [re.compile(r'PartialEq(<.*>)?( for .*)?>::(eq|ne)$'), re.compile(r'^core::str::traits::<impl core::cmp::PartialEq for str>::(eq|ne)$')]
+HYPHEN_REMOVERS = re.compile(r'^core::str::<impl str>::(strip_prefix|trim_start_matches|trim_matches|trim_left_matches)(::<.*>)?$')
+# calls that select a part of a text / hand it on without being able to drop a leading character on purpose
+NAME_NEUTRAL = re.compile(r'^core::str::<impl str>::(rsplit|split|rsplit_once|rsplitn|rsplit_terminator|split_terminator|as_ref|as_bytes)(::<.*>)?$|'
+                          r'Iterator>::(next|last)$|DoubleEndedIterator>::next_back$|'
+                          r'^core::option::Option::<T>::(unwrap_or|unwrap_or_default|map|map_or|and_then|unwrap|expect|or)(::<.*>)?$|'
+                          r'::deref$|::as_str$|::as_ref$|^std::path::Path::(new|file_name)(::<.*>)?$|^std::ffi::os_str::OsStr::to_str$|::borrow$')
+
+
+def _const_text(du, o, depth=4):
+    """Literal text of an operand that is (a reference to) a string / char constant, else None."""
+    for _ in range(depth):
+        if 'c' in o:
+            s = str(o['c'])
+            m = re.fullmatch(r'"(.*)"', s, re.S) or re.fullmatch(r"'(.*)'", s, re.S)
+            return m.group(1) if m else None
+        org = du.origin(o)
+        if org['k'] == 'const':
+            o = org['o']
+        elif org['k'] == 'ref' and not org['pl'].get('p'):
+            o = {'cp': org['pl']}
+        else:
+            return None
+    return None
+
+
+def _backward_slice(body, du, o):
+    """Locals the operand is computed from, and the calls on the way."""
+    seen, calls = set(), []
+    work = [Q.operand_local(o)] if ('cp' in o or 'mv' in o) else []
+    while work:
+        l = work.pop()
+        if l is None or l in seen:
+            continue
+        seen.add(l)
+        for b, idx, node in du.defs.get(l, []):
+            if idx == 't':
+                calls.append((b, node))
+                work.extend(Q.operand_local(a) for a in node['a'] if 'cp' in a or 'mv' in a)
+            elif node['k'] == 'assign':
+                work.extend(p['l'] for p in Q.rvalue_places(node['rv']))
+    return seen, calls
+
+
+def _drops_first_char_behind_hyphen_test(F, body, du, blk, t):
+    """`&arg0[1..]` / arg0.get(1..) / split_at(1) in a block that a successful starts_with('-') dominates."""
+    if not re.search(r'Index<.*> for str>::index$|^core::str::<impl str>::(get|split_at|get_unchecked)(::<.*>)?$', pp.callee(t)) or len(t['a']) < 2:
+        return False
+    a = t['a'][1]
+    one = str(a.get('c')).startswith('1') if 'c' in a else False
+    if not one and ('cp' in a or 'mv' in a):
+        org = du.origin(a)
+        ops = org['rv'].get('ops') or [] if org['k'] == 'agg' else []
+        one = 'RangeFrom' in str(org.get('rv', {}).get('adt')) and len(ops) == 1 and str(ops[0].get('c', '')).startswith('1')
+    if not one:
+        return False
+    for org, lab, e in Q.implied_conditions(F, body, du, blk):
+        if org['k'] == 'call' and Q.callee_is(org['t'], STARTS_WITH) and len(org['t']['a']) == 2 and \
+                _const_text(du, org['t']['a'][1]) == '-' and lab == ('bool', True):
+            return True
+    return False
+
+
+@RS.rule('C20.R12', 'K-TAINT', 'the hyphen that marks a login shell is not part of the name the shell is invoked with: where the start-up code '
+         'itself takes a leading `-` of arg0 for the login marker, the name whose last component is compared with `sh` (POSIXly-correct '
+         'mode) is computed from arg0 through the removal of that hyphen (`-sh` is a login shell named sh, as `-/bin/sh` is)')
+def r12(cx):
+    F = cx.F
+    found = 0
+    for fn in sorted(F.bodies):
+        if not fn.startswith('yash_cli::startup::') or is_test(fn):
+            continue
+        if not Q.find_aggregates(F.bodies[fn], SHOPT, 'PosixlyCorrect'):
+            continue
+        body = F.inlined(F.bodies[fn])           # a private helper (`basename(..)`) is seen through
+        aggs = Q.find_aggregates(body, SHOPT, 'PosixlyCorrect')
+        du = Q.DefUse(body)
+        for b, j, st in aggs:
+            # the test of the name: a comparison with a string constant that decides this PosixlyCorrect
+            tests = []
+            for org, lab, e in Q.implied_conditions(F, body, du, b):
+                org, lab = Q.peel_not(du, org, lab)
+                if org['k'] != 'call' or not Q.callee_is(org['t'], STR_EQ) or len(org['t']['a']) != 2:
+                    continue
+                a0, a1 = org['t']['a']
+                c0, c1 = _const_text(du, a0), _const_text(du, a1)
+                if (c0 is None) == (c1 is None):
+                    continue
+                positive = (lab == ('bool', True)) == pp.callee(org['t']).endswith('eq')
+                if positive:
+                    tests.append((org['t'], a1 if c0 is not None else a0, c0 if c0 is not None else c1))
+            if not tests:
+                # `name == "sh" || name == "-sh"` / matches!(name, "sh" | "-sh"): no single comparison dominates; take every
+                # comparison with a constant from which the aggregate can be reached as one alternative of the disjunction
+                for cb, ct in body.calls():
+                    if Q.callee_is(ct, STR_EQ) and len(ct['a']) == 2 and b in body.reachable(cb):
+                        c0, c1 = _const_text(du, ct['a'][0]), _const_text(du, ct['a'][1])
+                        if (c0 is None) != (c1 is None):
+                            tests.append((ct, ct['a'][1] if c0 is not None else ct['a'][0], c0 if c0 is not None else c1))
+            if not tests:
+                continue                     # PosixlyCorrect decided by something else than a name (an option): not this rule's site
+            found += 1
+            cx.fn(body.fn)
+            # the login marker is recognised in the same function: a leading `-` of a text parameter decides Option::Login
+            login = []
+            for lb, lj, lst in Q.find_aggregates(body, SHOPT, 'Login'):
+                for org, lab, e in Q.implied_conditions(F, body, du, lb):
+                    if org['k'] == 'call' and Q.callee_is(org['t'], [re.compile(r'^core::str::<impl str>::(starts_with|strip_prefix)(::<.*>)?$')]) \
+                            and len(org['t']['a']) == 2 and _const_text(du, org['t']['a'][1]) == '-' and lab in (('bool', True), ('variant', 'Some')):
+                        sl, _ = _backward_slice(body, du, org['t']['a'][0])
+                        login.append({l for l in sl if 1 <= l <= body.argc})
+            cx.require(login, '%s decides PosixlyCorrect by a name but does not itself take a leading `-` of its argument for the login marker '
+                       '(Option::Login behind starts_with(\'-\')): where the marker is removed is not understood' % fn)
+            marked_params = set().union(*login)
+            for t, val, const in tests:
+                if const.startswith('-'):
+                    continue                 # the hyphenated spelling itself
+                sl, calls = _backward_slice(body, du, val)
+                from_arg0 = bool(sl & marked_params)
+                others = {c for t2, v2, c in tests}
+                removers = [(cb, ct) for cb, ct in calls if HYPHEN_REMOVERS.match(pp.callee(ct)) and len(ct['a']) > 1
+                            and '-' in (_const_text(du, ct['a'][1]) or '')]
+                removers += [(cb, ct) for cb, ct in calls if _drops_first_char_behind_hyphen_test(F, body, du, cb, ct)]
+                unknown = [pp.callee(ct) for cb, ct in calls if (cb, ct) not in removers and not HYPHEN_REMOVERS.match(pp.callee(ct))
+                           and not NAME_NEUTRAL.search(pp.callee(ct))]
+                cx.site('%s: name compared with "%s" at %s: computed from the parameter that carries the login hyphen: %s; hyphen removed on the '
+                        'way by %s' % (fn, const, body.loc(t), from_arg0, [pp.callee(ct).split('::')[-1] for cb, ct in removers] or 'NOTHING'))
+                cx.require(from_arg0, '%s: the text compared with "%s" is not computed from the parameter whose leading `-` is the login '
+                           'marker: shape not understood' % (fn, const))
+                if removers or ('-' + const) in others:
+                    continue
+                cx.require(not unknown, '%s: the name compared with "%s" is computed through %s, which this rule does not know: it cannot tell '
+                           'whether the login hyphen is removed' % (fn, const, sorted(set(unknown))))
+                cx.violation(fn, 'login-hyphen-part-of-name:%s' % const, 'the name compared with "%s" is cut out of arg0 (%s) without removing the '
+                             'leading `-` that the same function takes for the login-shell marker, and "-%s" is not accepted either: a login '
+                             'shell invoked as `-%s` (how login(1) and sshd start the shell named by a relative path) does not enter the '
+                             'POSIXly-correct mode, while `-/bin/%s` and `%s` do' % (const, ', '.join(pp.callee(ct).split('::')[-1] for cb, ct in calls)
+                                                                                   or 'directly', const, const, const, const), loc=body.loc(t))
+    cx.require(found >= 1, 'no function of yash_cli::startup decides Option::PosixlyCorrect by comparing a name with a string constant '
+               '(anchor moved: review how `sh` is recognised)')
 
 
 # --- explanation addendum (generated catalogue in DESIGN.md reads RS.explanation)
